@@ -372,8 +372,9 @@ namespace Dune {
       if (x.N()!=M()) DUNE_THROW(FMatrixError,"index out of range");
       if (y.N()!=N()) DUNE_THROW(FMatrixError,"index out of range");
 #endif
+      const typename FieldTraits<Y>::field_type a = alpha;   // by value: alpha may refer to an entry of y
       for (size_type i=0; i<n; i++)
-        y[i] += alpha * diag_[i] * x[i];
+        y[i] += a * diag_[i] * x[i];
     }
 
     //! y += alpha A^T x
@@ -385,8 +386,9 @@ namespace Dune {
       if (x.N()!=N()) DUNE_THROW(FMatrixError,"index out of range");
       if (y.N()!=M()) DUNE_THROW(FMatrixError,"index out of range");
 #endif
+      const typename FieldTraits<Y>::field_type a = alpha;   // by value: alpha may refer to an entry of y
       for (size_type i=0; i<n; i++)
-        y[i] += alpha * diag_[i] * x[i];
+        y[i] += a * diag_[i] * x[i];
     }
 
     //! y += alpha A^H x
@@ -398,8 +400,9 @@ namespace Dune {
       if (x.N()!=N()) DUNE_THROW(FMatrixError,"index out of range");
       if (y.N()!=M()) DUNE_THROW(FMatrixError,"index out of range");
 #endif
+      const typename FieldTraits<Y>::field_type a = alpha;   // by value: alpha may refer to an entry of y
       for (size_type i=0; i<n; i++)
-        y[i] += alpha * conjugateComplex(diag_[i]) * x[i];
+        y[i] += a * conjugateComplex(diag_[i]) * x[i];
     }
 
     //===== norms
